@@ -142,6 +142,26 @@ def run(ctx: Ctx) -> Result:
         if not good and len(res.violations) < 10:
             res.violations.append({'input': {'what': f'2-of-3 by two listed signers, message of {len(msg)} bytes, stack_max_item_size = {lim}', 'cfg': c2.line(), 'cache': vmrun.cache_str(cache, False)[:3000], 'script': script.hex()},
                                    'expected': 'true (the message fits the configured item limit)' if fits else 'an error (the message every check must build exceeds the configured item limit)', 'observed': o[:160], 'how_to_run': './check C03 --replay <this file>'})
+    # every signature of the quorum carries the SAME non-permitted flag bit (each is valid over what that flag leaves covered): an
+    # error, never true - the permission is a property of each signature, not of the set
+    for _ in range(ctx.n(40, 300)):
+        allowed = rng.choice([0, 0, 2, 0x80, 0x7e, 0x0f])
+        outside = [b_ for b_ in range(8) if not (allowed >> b_) & 1]
+        f_ = (1 << rng.choice(outside)) | (allowed & rng.getrandbits(8))
+        n_ = rng.choice([2, 3, 4, 5]); m_ = rng.choice([2, 2, 3, 4]); m_ = min(m_, n_)
+        ks = rng.sample(range(len(keys.sks)), n_)
+        cache = {f'sigfield{i}': V.rbytes(rng, rng.choice([1, 4])) for i in range(1, 9) if rng.random() < .5}
+        cache.setdefault('sigfield1', b'f1')
+        sg = [keys.sks[k].sign(ref_msg(cache, f_)).signature + bytes([f_]) for k in ks[:m_]]
+        if rng.random() < .5: sg.reverse()
+        script = build(sg, [keys.pks[k] for k in ks], allowed)
+        o = vmrun.run_impl(cfg, cache, script)
+        lim_lines.append(vmrun.case_line('RUN', cfg, cache, [script])); lim_outs.append(o)
+        res.note_case(('same-bad-flag', allowed, f_, m_, n_, tuple(ks)))
+        f = vmrun.fields(o); st = f['status']
+        if not st.startswith('ERR') and len(res.violations) < 10:
+            res.violations.append({'input': {'what': f'{m_}-of-{n_}, allowance {allowed:02x}, every signature flagged {f_:02x}', 'cfg': cfg.line(), 'cache': vmrun.cache_str(cache, False), 'script': script.hex()},
+                                   'expected': 'an error (a flag bit outside the allowance) - never true', 'observed': o[:160], 'how_to_run': './check C03 --replay <this file>'})
     # make_multisig_lock: quorum <= number of unique keys, whatever the key objects' types
     for _ in range(ctx.n(150, 1500)):
         k = rng.randrange(1, 4)
